@@ -2382,10 +2382,14 @@ def rule_reuse(prog):
                 continue
             n_seq += 1
             # where does the old node come from?
-            pl_ = hir.path_local(hir.strip_ref(x["args"][0]))
+            a0_ = hir.strip_ref(x["args"][0])
+            while a0_.get("k") == "Field" or (a0_.get("k") == "MethodCall" and a0_["m"] in ("as_ref", "as_deref", "map", "cloned", "copied")):
+                # (`old.name` of a struct that bundles the reusable parts, `this.map(|t| &t.name)`)
+                a0_ = hir.strip_ref(a0_["base"] if a0_.get("k") == "Field" else a0_["recv"])
+            pl_ = hir.path_local(a0_)
             j_ = pids_.index(pl_["id"]) if pl_ and pl_["id"] in pids_ else None
             if j_ is None:
-                out.add(fb["d"], "a sequence behind a reused node runs under affected(..)", None if pl_ else False, c.loc(x["sp"]),
+                out.add(fb["d"], "a sequence behind a reused node runs under affected(..)", None, c.loc(x["sp"]),
                         "an old node is handed to the first parser of a sequence outside affected(..)", ("seqwrap",))
                 continue
             bad_site = None
